@@ -87,6 +87,8 @@ module Pos :
 
   val ldiff : positive -> positive -> n
 
+  val testbit : positive -> n -> bool
+
   val iter_op : ('a1 -> 'a1 -> 'a1) -> positive -> 'a1 -> 'a1
 
   val to_nat : positive -> nat
@@ -101,6 +103,8 @@ module N :
   val coq_lor : n -> n -> n
 
   val ldiff : n -> n -> n
+
+  val testbit : n -> n -> bool
  end
 
 module Z :
@@ -147,7 +151,11 @@ module Z :
 
   val modulo : z -> z -> z
 
+  val odd : z -> bool
+
   val div2 : z -> z
+
+  val testbit : z -> z -> bool
 
   val shiftl : z -> z -> z
 
@@ -239,6 +247,76 @@ val try_pop_n_second : z -> z -> z
 val until_index : z -> z -> z
 
 val until_try_num : z -> z
+
+val fw_push_default_value : z
+
+val fw_push_default_cb : z
+
+val fw_push_value : z -> z -> z -> z
+
+val fw_push_core : z -> z -> z
+
+val fw_try_push_value : z -> z -> z
+
+val fw_try_push_core : z -> z -> z
+
+val fw_push_n_default_it : z
+
+val fw_push_n_default_cb : z
+
+val fw_push_n_it : z -> z -> z -> z
+
+val fw_push_n_core_whole : z -> z -> z
+
+val fw_push_n_core_first : z -> z -> z
+
+val fw_push_n_core_second : z -> z -> z
+
+val fw_try_push_n_core_whole : z -> z -> z
+
+val fw_try_push_n_core_first : z -> z -> z
+
+val fw_try_push_n_core_second : z -> z -> z
+
+val fw_pop_default_ref : z
+
+val fw_pop_default_cb : z
+
+val fw_pop_ptr : z -> z -> z -> z
+
+val fw_pop_ref : z -> z -> z -> z
+
+val fw_pop_core : z -> z -> z
+
+val fw_pop_default_ptr : z
+
+val fw_try_pop_default_ref : z
+
+val fw_try_pop_default_cb : z
+
+val fw_try_pop_ref : z -> z -> z
+
+val fw_try_pop_core : z -> z -> z
+
+val fw_pop_n_default_it : z
+
+val fw_pop_n_default_cb : z
+
+val fw_pop_n_it : z -> z -> z -> z
+
+val fw_pop_n_core_whole : z -> z -> z
+
+val fw_pop_n_core_first : z -> z -> z
+
+val fw_pop_n_core_second : z -> z -> z
+
+val fw_try_pop_n_core_whole : z -> z -> z
+
+val fw_try_pop_n_core_first : z -> z -> z
+
+val fw_try_pop_n_core_second : z -> z -> z
+
+val fw_until_core : z -> z
 
 val wait_ready : z -> z -> bool
 
@@ -520,3 +598,57 @@ val wake_ok : bool -> op list list -> bool
 val size_ok : nat -> op list list -> bool
 
 val usage_ok : nat -> op list list -> bool
+
+type entry =
+| EnCb
+| EnVal
+| EnPtr
+| EnIt
+| EnDefCb
+| EnDefVal
+| EnDefPtr
+| EnDefIt
+
+type call = { c_entry : entry; c_op : op }
+
+val bz : bool -> z
+
+val f3 : z -> flags
+
+val f2 : z -> flags -> flags
+
+val via3 : (z -> z -> z -> z) -> flags -> flags
+
+val via2 : (z -> z -> z) -> flags -> flags
+
+val core_wk : (z -> z -> z) -> flags -> flags
+
+val core_ck : (z -> z -> z) -> flags -> flags
+
+val until_flags : flags -> flags
+
+val lower_flags : op -> entry -> flags option
+
+val with_flags : op -> flags -> op
+
+val lower : call -> op
+
+val lower_progs : call list list -> op list list
+
+val declared : call list list -> op list list
+
+val eqf : flags -> flags -> bool
+
+val fdefault : flags
+
+val entry_ok : call -> bool
+
+val calls_ok : call list list -> bool
+
+val all2 : (z -> z -> bool) -> bool
+
+val same2 : (z -> z -> z) -> (z -> z -> z) -> bool
+
+val role2 : (z -> z -> z) -> bool -> bool
+
+val cores_ok : bool
